@@ -188,6 +188,41 @@ theorem body_exception_unchanged (m : Mode) (g : UserGen) (args : CallArgs) (n :
   rw [body_outcome_unchanged m g args _ (by simp [Prog.docForm, hd, hf]) rfl hs hc]
   simp [run, exec, BodyOut.final]
 
+/-- *what the generator returns after its cleanup is no verdict on the block's exception*: a decorated generator may end with
+    `return <anything>` (truthy, falsy, nothing) — journal and outcome of the `with` statement are the same for every returned value;
+    in particular (with `body_exception_unchanged`) a body exception propagates unchanged past a cleanup that returns a truthy value -/
+theorem cleanup_return_value_ignored (m : Mode) (g : UserGen) (r : Ret) (args : CallArgs) (inner : Prog) (fresh : Nat) :
+    exec m (.withCm { g with returns := r } args inner) fresh = exec m (.withCm g args inner) fresh := by
+  have hu : ∀ recv s, userNext { g with returns := r } recv s = userNext g recv s := by intro recv s; rfl
+  have hn : ∀ recv fr n u, runNexts m { g with returns := r } recv fr n u = runNexts m g recv fr n u := by
+    intro recv fr n
+    induction n with
+    | zero => intro u; rfl
+    | succ k ih => intro u; simp only [runNexts, hu, ih]
+  have hb : ∀ recv fr l u, runBlocks m { g with returns := r } recv fr l u = runBlocks m g recv fr l u := by
+    intro recv fr l
+    induction l with
+    | nil => intro u; rfl
+    | cons b rest ih => intro u; obtain ⟨n, c⟩ := b; simp only [runBlocks, hn, ih]
+  have hc : ∀ recv fr u, cleanupBlock m { g with returns := r } recv fr u = cleanupBlock m g recv fr u := by
+    intro recv fr u; simp only [cleanupBlock, hb]
+  have hw : ∀ recv fr e u, unwind m { g with returns := r } recv fr e u = unwind m g recv fr e u := by
+    intro recv fr e u; simp only [unwind, hc]
+  have hwn : ∀ recv fr w, wrapNext m { g with returns := r } recv fr w = wrapNext m g recv fr w := by
+    intro recv fr w; cases w <;> simp only [wrapNext, hu, hw, hc]
+  have hwt : ∀ recv fr v w, wrapThrow m { g with returns := r } recv fr v w = wrapThrow m g recv fr v w := by
+    intro recv fr v w; cases w <;> simp only [wrapThrow, hw]
+  have hx : ∀ recv fr w fin, exitWith m { g with returns := r } recv fr w fin = exitWith m g recv fr w fin := by
+    intro recv fr w fin; cases fin <;> simp only [exitWith, hwn, hwt]
+  simp only [exec, hwn, hx]
+
+theorem body_exception_unchanged_whatever_is_returned (m : Mode) (g : UserGen) (r : Ret) (args : CallArgs) (n : Nat) (e : Exc)
+    (hd : g.docForm m = true) (hf : args.fits = true) (hs : g.setupExc = none) (hc : g.cleanupExc = none) :
+    (run m (.withCm { g with returns := r } args (.body n (.raises e)))).2 = .raised e := by
+  have h := cleanup_return_value_ignored m g r args (.body n (.raises e)) 1000
+  simp only [run, h]
+  exact body_exception_unchanged m g args n e hd hf hs hc
+
 /-- *the cleanup's exception wins* — full statement (no guard).  It is **false** for contextlib (see the witness below). -/
 def cleanup_exception_wins_full : Prop :=
   ∀ (m : Mode) (g : UserGen) (args : CallArgs) (n : Nat) (b : BodyOut) (c : Exc), g.docForm m = true → args.fits = true → g.setupExc = none →
@@ -204,13 +239,13 @@ theorem cleanup_exception_wins_partial (m : Mode) (g : UserGen) (args : CallArgs
 /-- the complement really is violated (by contextlib's PEP-479 special case, which the library inherits): the block raises the
     StopIteration object 7, the cleanup raises `RuntimeError(…) from <object 7>` — the caller gets object 7, not the cleanup's exception -/
 theorem cleanup_exception_wins_witness :
-    let g : UserGen := ⟨1, none, 1, some ⟨.runtimeError, 8, some 7⟩, 3⟩
+    let g : UserGen := ⟨1, none, 1, some ⟨.runtimeError, 8, some 7⟩, 3, .none⟩
     g.docForm .sync = true ∧ (run .sync (.withCm g a5 (.body 0 (.raises ⟨.stopIteration, 7, none⟩)))).2 = .raised ⟨.stopIteration, 7, none⟩ := by
   decide
 
 theorem cleanup_exception_wins_full_false : ¬ cleanup_exception_wins_full := by
   intro h
-  have := h .sync ⟨1, none, 1, some ⟨.runtimeError, 8, some 7⟩, 3⟩ a5 0 (.raises ⟨.stopIteration, 7, none⟩) ⟨.runtimeError, 8, some 7⟩
+  have := h .sync ⟨1, none, 1, some ⟨.runtimeError, 8, some 7⟩, 3, .none⟩ a5 0 (.raises ⟨.stopIteration, 7, none⟩) ⟨.runtimeError, 8, some 7⟩
     (by decide) rfl rfl rfl
   revert this; decide
 
@@ -560,9 +595,9 @@ theorem hist_eq_spec_initial (m : Mode) (ops : List Op) (hok : histOk m [] ops =
 
 /-! ## Non-vacuity: concrete instances that meet the hypotheses -/
 
-def gOk (t : Nat) : UserGen := ⟨t, none, 1, none, 40 + t⟩
-def gCleanupFails (t : Nat) : UserGen := ⟨t, none, 1, some ⟨.baseExc, 90 + t, none⟩, 40 + t⟩
-def gSetupFails (t : Nat) : UserGen := ⟨t, some ⟨.cancelled, 80 + t, none⟩, 1, none, 40 + t⟩
+def gOk (t : Nat) : UserGen := ⟨t, none, 1, none, 40 + t, .none⟩
+def gCleanupFails (t : Nat) : UserGen := ⟨t, none, 1, some ⟨.baseExc, 90 + t, none⟩, 40 + t, .none⟩
+def gSetupFails (t : Nat) : UserGen := ⟨t, some ⟨.cancelled, 80 + t, none⟩, 1, none, 40 + t, .none⟩
 
 -- the body raises KeyboardInterrupt-like object 7 / GeneratorExit / StopIteration / StopAsyncIteration: cleanup once, same object out
 example : run .sync (.withCm (gOk 1) a5 (.body 0 (.raises ⟨.baseExc, 7, none⟩)))
